@@ -77,7 +77,9 @@ where
 }
 
 impl ValueTryAs for Value {
-    fn try_as_integer(self) -> Result<Integer> {
+    fn try_as_integer(self) ->« (r:» Result<Integer>«)
+        ensures self matches Value::Integer(i) ==> r == Ok::<Integer, CoseError>(i),
+                !(self is Integer) ==> (r matches Err(e) && e is UnexpectedItem),» {
         if let Value::Integer(i) = self {
             Ok(i)
         } else {
@@ -144,7 +146,9 @@ impl ValueTryAs for Value {
         }
     }
 
-    fn try_as_tag(self) -> Result<(u64, Box<Value>)> {
+    fn try_as_tag(self) ->« (r:» Result<(u64, Box<Value>)>«)
+        ensures self matches Value::Tag(t, b) ==> r == Ok::<(u64, Box<Value>), CoseError>((t, b)),
+                !(self is Tag) ==> (r matches Err(e) && e is UnexpectedItem),» {
         if let Value::Tag(a, v) = self {
             Ok((a, v))
         } else {
@@ -152,7 +156,9 @@ impl ValueTryAs for Value {
         }
     }
 
-    fn try_as_string(self) -> Result<String> {
+    fn try_as_string(self) ->« (r:» Result<String>«)
+        ensures self matches Value::Text(t) ==> r == Ok::<String, CoseError>(t),
+                !(self is Text) ==> (r matches Err(e) && e is UnexpectedItem),» {
         if let Value::Text(s) = self {
             Ok(s)
         } else {
